@@ -1,5 +1,12 @@
-(* Lemmas about Model/Ty.v *)
+(* Lemmas about Model/Ty.v — umbrella file.
+   TyFuel    : sizes, list extensionality, fuel irrelevance, *_unfold equations
+   TyEq      : ty_eqb is an equivalence; keys_ok
+   TyMatches : matches is a preorder with bottom/top, variance equations
+   TyJoin    : concat is the join, conjoin a lower bound; wf preservation
+   TyQuery   : the Option-returning queries preserve wf_ty
+   TyCompat  : concat respects ty_eqb; commutative / associative up to ty_eqb *)
 From SSL.Model Require Import Base Ty.
+From SSL.Lemmas Require Export TyFuel TyEq TyMatches TyJoin TyQuery TyCompat.
 
-Lemma matches_never_l b : matches TNever b = true.
-Proof. unfold matches. cbn [size Nat.add matches_f]. reflexivity. Qed.
+(* [matches_never_l] lives in TyMatches and is re-exported here. *)
+Definition matches_never_l_reexport : forall b, matches TNever b = true := matches_never_l.
